@@ -199,6 +199,17 @@ def cases(draw: Any, tier: str) -> dict:
     sub = g.components_cfg(root, 1)
     if sub:
         ext["components"] = sub
+    if d.pct(3):
+        # a chain of configuration-only components far deeper than the generated trees usually are
+        chain: dict[str, Any] | None = None
+        for k in range(d.pick([10, 17, 20, 25]), 0, -1):
+            entry: dict[str, Any] = {"type": {"$type": [d.pick(["class", "ref"]), NCLS - 1]}}
+            if k % 4 == 0:
+                entry["a"] = k
+            if chain is not None:
+                entry["components"] = chain
+            chain = {f"lvl{k}": entry}
+        ext.setdefault("components", {}).update(chain or {})
     return {"backend": draw(BACKEND), "sched_seed": draw(SEED), "classes": g.classes, "root": root, "root_how": d.pick(HOWS),
             "ext": ext, "none_config": (not ext) and d.bool()}
 
